@@ -265,6 +265,18 @@ def grid_row(case, ctx):
         ctx.valid()
         if snap(A) != sA or snap(B) != sB:
             ctx.violation("operand-modified", "A+B / A-B changed an operand", extra=ex2)
+        # operands whose value arrays have DIFFERENT dtypes: an integer-typed array against half of the partner
+        # (fractional values); the result is the pointwise operation in floating point whatever the operand order
+        if np.all(va == np.round(va)):
+            for dt in (np.int64, np.int16):
+                Ai = PersLandscapeApprox(values=va.astype(dt), start=start, stop=stop, num_steps=num, hom_deg=0)
+                Bh = PersLandscapeApprox(values=0.5 * vb + 0.25 * (vb != 0), start=start, stop=stop, num_steps=num, hom_deg=0)
+                vbh = np.asarray(Bh.values, dtype=float)
+                pai, pbh = pad(va, vbh)
+                vals_equal(ctx, "grid-add-mixed-dtype", ctx.call(lambda: Ai + Bh), pai + pbh, grid, "A(%s) + B/2" % np.dtype(dt), ex2)
+                vals_equal(ctx, "grid-add-mixed-dtype", ctx.call(lambda: Bh + Ai), pai + pbh, grid, "B/2 + A(%s)" % np.dtype(dt), ex2)
+                vals_equal(ctx, "grid-sub-mixed-dtype", ctx.call(lambda: Ai - Bh), pai - pbh, grid, "A(%s) - B/2" % np.dtype(dt), ex2)
+                vals_equal(ctx, "grid-sub-mixed-dtype", ctx.call(lambda: Bh - Ai), pbh - pai, grid, "B/2 - A(%s)" % np.dtype(dt), ex2)
 
 
 def interp_ref(pl, target):
